@@ -50,7 +50,7 @@ def gen_cases(rng, tier):
     groute = "api" if route.startswith("api") else "potable"
     m = spec.gen_eam_model(rng, "adp", groute, target="eam_adp")
     if groute == "api":
-      m["api_containers"] = rng.choice([None, None, "tuple", "generator", "map"])
+      m["api_containers"] = rng.choice([None, None, "tuple", "generator", "map", "amend_after_write"])
     cases.append({"kind": "adp", "route": route, "model": m, "style": rng.randrange(1 << 30)})
   for i in range(n):
     m = spec.gen_eam_model(rng, "eam", "api", nspecies=1, target="setfl", underspecified=0)
@@ -72,8 +72,12 @@ def gen_cases(rng, tier):
       m = spec.gen_eam_model(rng, kind, groute, target="excel_eam" if kind == "eam" else "excel_eam_fs",
                              grids={"nr": rng.choice([2, 3, 5, 9, 21, 60]), "nrho": rng.choice([2, 3, 5, 9, 30])})
       if groute == "api":
-        m["api_containers"] = rng.choice([None, None, "tuple", "generator", "map"])
+        m["api_containers"] = rng.choice([None, None, "tuple", "generator", "map", "amend_after_write"])
     cases.append({"kind": "excel", "route": route, "model": m, "style": rng.randrange(1 << 30)})
+  # row-count sweep (everything small, m*10^k, 2^k, multiples of 5000, each with neighbours): structure and end values
+  szs = spec.edge_sizes(tier, multiple_of=1, lo=2)
+  for c0 in range(0, len(szs), 12):
+    cases.append({"kind": "sizes", "sizes": szs[c0:c0 + 12], "route": "api_legacy", "model": None, "style": 0})
   return cases
 
 
@@ -408,6 +412,15 @@ def run_excel(case, ctx, rng):
 
 
 def run_case(case, ctx):
+  if case.get("kind") == "sizes":
+    import sizesweep
+    ctx.cls("kind:row_count_sweep")
+    for n_ in case["sizes"]:
+      ctx.cls(sizesweep.size_class(n_))
+      if not (sizesweep.check_gulp(ctx, n_)):
+        return
+    ctx.nontrivial(True)
+    return
   ctx.cls("kind:" + case["kind"])
   ctx.cls("route:" + case["route"])
   if case["kind"] == "funcfl":
